@@ -357,6 +357,15 @@ func init() {
 			return m.bitsLen(args[0], 64)
 		},
 
+		// (*bytes.Buffer).Grow with a symbolic count: a capacity hint; the buffer is
+		// left as it is (it grows on Write anyway).
+		"(*bytes.Buffer).Grow": func(m *Machine, fr *frame, args []value) value {
+			if _, ok := args[1].(*Sym); !ok {
+				return notHandled{}
+			}
+			return nil // (the panic for a negative symbolic count is not modelled)
+		},
+
 		// ---- hashing
 		"crypto/sha256.New": func(m *Machine, fr *frame, args []value) value {
 			t := m.namedType("crypto/sha256", "digest")
